@@ -45,7 +45,7 @@ REGISTRY.declare_class(
     # ghost: g_span[idx] = encoded bytes of depth slice idx (all cores); g_prev_end = end of the most recently recorded range
     g_span=TMap(PyInt), g_prev_end=PyInt, g_slice_start=PyInt, hw_traversal=TEnum(NpuBlockTraversal),
     # fields read by create_weights (address: the allocated address, a property backed by the global TensorAddressMap)
-    mem_type=TEnum(MemType, members=list(MemType.all())), src_tensor=TOpt(TObj(NpuWeightTensor)), address=TInt(lo=0, hi=2**40),
+    mem_type=TEnum(MemType), src_tensor=TOpt(TObj(NpuWeightTensor)), address=PyInt,
     purpose=TEnum(TensorPurpose),
 )
 
